@@ -1,15 +1,24 @@
-/* Native driver for the *generated C* (translation validation, debugging): nondet values come from VP_NONDET="v1,v2,..."
-   (exhausted list -> 0), assertion failures and vp_log records go to stdout. */
+/* Native driver for the *generated C* (counter-example replay, translation validation): nondet values come from
+   VP_NONDET="v1,v2,..." (exhausted list -> 0).  With VP_TV=1 only harness draws (kinds >= 10) consume the list; model draws
+   (budgets, time-outs, clock, spurious wake-ups) are 0.  Assertion failures, vp_log records and the final ghost dump go to stdout. */
 #include <stdio.h>
 #include <stdlib.h>
 #include <string.h>
-static int vals[4096], nvals = -1, pos;
+static int vals[4096], nvals = -1, pos, tvmode;
 static void load(void) {
-  nvals = 0; const char* e = getenv("VP_NONDET");
+  nvals = 0; const char* e = getenv("VP_NONDET"); tvmode = getenv("VP_TV") != 0;
   if (!e) return;
   char* s = strdup(e); for (char* t = strtok(s, ","); t && nvals < 4096; t = strtok(0, ",")) vals[nvals++] = atoi(t);
 }
-int vp_native_nondet(int kind) { (void)kind; if (nvals < 0) load(); return pos < nvals ? vals[pos++] : 0; }
+int vp_native_nondet(int kind) {
+  if (nvals < 0) load();
+  if (tvmode && kind < 10) return 0;
+  return pos < nvals ? vals[pos++] : 0;
+}
 void vp_native_assert_fail(int id, const char* txt) { printf("ASSERT-FAIL id=%d %s\n", id, txt); fflush(stdout); }
 void vp_native_assume_fail(void) { printf("ASSUME-FAIL\n"); fflush(stdout); exit(3); }
 void vp_log(int tag, int v) { printf("LOG %d %d\n", tag, v); }
+void vp_native_dump(const int* ghost, int ng, unsigned covered) {
+  for (int i = 0; i < ng; i++) if (ghost[i]) printf("GHOST %d %d\n", i, ghost[i]);
+  printf("COVER %u\n", covered);
+}
